@@ -73,7 +73,7 @@ def gen_wf_stream(rng, c, maxops=40):
         if k < 0.35 or len(out) == 0:
             i = rng.randrange(1, 60)
             s.append(i)
-            out.append(c.COMPRESSED_LUA_CHAR_TABLE[i])
+            out.append(refstream.TABLE[i])
         elif k < 0.5:
             b = rng.randrange(256)
             s += bytes([0, b])
@@ -138,7 +138,7 @@ def run(ctx, res):
         res.nontrivial.add(('s', s))
         res.count('wf-stream')
         ref = refstream.ref_decode(s)
-        assert ref == out
+        assert ref == out      # generator and reference decoder are both written from the format description
         n = rng.choice([len(out), len(out), max(0, len(out) - rng.randrange(0, 4))])
         hdr = b':c:\x00' + bytes([n >> 8, n & 255]) + b'\x00\x00'
         try:
